@@ -4,10 +4,10 @@ From BWPlanner Require Import Terms.
 
 Definition current (ks strlit_invalid : bool) : cfg :=
   mkCfg ks strlit_invalid
-        false  (* fix9  *)
-        false  (* fix14 *)
-        false  (* fix15 *)
-        false. (* fixoid *)
+        true  (* fix9:   /repo ecd016d *)
+        true  (* fix14:  /repo b974631 *)
+        true  (* fix15:  /repo cd0ad98 *)
+        true. (* fixoid: /repo 80d28a9 (literal part; the node part is pinned by TestPlannerQuery) *)
 
 (* the tree as it was before any repair of this family *)
 Definition original (ks strlit_invalid : bool) : cfg := mkCfg ks strlit_invalid false false false false.
